@@ -10,6 +10,21 @@ def repo_fix_and_hook_commits():
     return hooks
 
 CHECKS = {
+ 'C04': dict(level='fault_enumeration', design='6 C04', technique='deterministic simulation with fault injection: per sampled sync, every storage call and server request is interrupted with each of {error before effect, effect then error, process stop}, then resync and compare with the uninterrupted outcome',
+   text='For seeded histories the sync under test is first run fault-free to enumerate its interruption points, then re-executed from a copy of the same durable state once per point and fault kind; after each interruption the replica invariant must hold, repeating the sync must give exactly the replica and chain state of the uninterrupted sync with nothing left unsynchronized, and all replicas must then converge with every committed update accounted for once. Exhaustive over the interruption points of each sampled sync; histories are sampled.',
+   note='Process stop = the replica future is dropped and only the committed in-memory store survives (SQLite kills are C06). Reference server as in C01.'),
+ 'C05': dict(level='fault_enumeration', design='6 C05', technique='deterministic simulation with fault injection: operation batches (valid or not) checked against the documented operation model after every commit, plus a sweep of every storage call of a commit with error/stop faults for all-or-nothing',
+   text='Arbitrary batches (create of existing, update/delete of missing tasks, delete-then-create, removals, undo points) on states produced by seeded histories; after each commit the unsynchronized list must be the old list plus the batch in order and the tasks must equal the reference model applied to base state + unsynchronized operations; a further commit is interrupted at every storage call with each fault kind and the store must be exactly the before- or after-state.',
+   note='In-memory storage in this check; SqliteStorage gets the same treatment in C06/C16. Working-set additions are checked by C15.'),
+ 'C07': dict(level='exploration', design='6 C07', technique='deterministic simulation: seeded scripts of commits, undo, stale undo, undo after sync, with list/return-value/state oracles and conservation at the server',
+   text='Seeded scripts on 1-3 syncing replicas; oracles on the fetched undo list, on the unsynchronized list after undo, on the tasks (replica invariant pins them to the earlier state), on return values for fresh/stale/post-sync undo, and at the server that undone operations never arrive.',
+   note='Operations are created through the TaskData API; reference server as in C01.'),
+ 'C12': dict(level='exploration', design='6 C12', technique='deterministic simulation: reference server with seeded snapshot urgency, independent snapshot decoder compared with chain replay, late-joining empty replicas after the server discards old versions',
+   text='Every snapshot any replica uploads is inflated and parsed independently at the reference server and compared with the replay of the chain up to its version, and must have been warranted by urgency vs. the replica threshold; new empty replicas joining after the old versions are discarded must reach the full replay; a replica holding data must never ask for a snapshot. Includes Unicode contents, multi-version syncs and (thorough) thousands of tasks.',
+   note='Reference server; the property says a snapshot is produced only when urgency meets the threshold, so a missing snapshot is counted, not flagged.'),
+ 'C14': dict(level='exploration', design='6 C14', technique='deterministic simulation: strict independent decoder on every version sent; foreign client writing the documented grammar with other field orders, whitespace, escapes and timestamp precisions',
+   text='Send side checked on every version of every run by a strict serde_json::Value walker (exact keys, RFC 3339 UTC timestamps, order of a replica\'s surviving updates, nothing undone or uncommitted); receive side by a foreign writer whose versions all replicas must apply so as to converge with the reference replay.',
+   note='The wire document is {"operations":[…]} as emitted by every released implementation; the docs show a bare array (DESIGN.md section 9).'),
  'C03': dict(level='exploration', design='6 C03', technique='deterministic simulation: round-structured histories re-executed from a copied common state under every order of first syncs, compared with a documented-winner model and with each other',
    text='Rounds of concurrent batches by 2-3 real replicas from a common state; each round is executed under all N! orders of first syncs plus seeded interleaved catch-up syncs; every execution must equal M-winner (delete beats update, greatest timestamp wins per property, creations kept, later rounds override earlier ones whatever the timestamps) and all executions must agree.',
    note='Trusted: M-winner written from docs; batches restricted to forms with an unambiguous documented winner; on exact timestamp ties any tied value is accepted but must be the same in all orders.'),
